@@ -171,14 +171,15 @@ def some_schedules(model, msgs, deps):
     return out
 
 
-def explore_structure(acc, k, mask, pres, sizes_name, vclasses, seed, only=None, orders_mode='all'):
+def explore_structure(acc, k, mask, pres, sizes_name, vclasses, seed, only=None, orders_mode='all', naming='letters'):
     """all orders x schedules x value classes for one (graph, presentation, size pattern).
     `only` restricts to a single (order, vclass, schedule) for replay."""
     from mbi import Domain, GraphicalModel
     attrs = S.ATTRS[:k]
     sizes = (S.SIZES_MAIN if sizes_name == 'main' else S.SIZES_ONE)[:k]
     edges = S.graph_by_mask(k, mask)
-    cliques = S.present(attrs, edges, pres)
+    cliques = S.rename(S.present(attrs, edges, pres), naming)
+    attrs = S.rename(attrs, naming)   # domain order stays, names no longer sort in domain order
     dom = Domain(attrs, sizes)
     rngseed = zlib.crc32(repr((seed, k, mask, pres, sizes_name)).encode())
     refs = {}
@@ -234,9 +235,9 @@ def explore_structure(acc, k, mask, pres, sizes_name, vclasses, seed, only=None,
                 if only is not None and only.get('schedule') != (None if sc is None else [[list(a), list(b)] for a, b in sc]):
                     continue
                 model.message_order = lib_order if sc is None else list(sc)
-                case = {'k': k, 'mask': mask, 'pres': pres, 'sizes': sizes_name, 'order': order, 'vclass': vc,
+                case = {'k': k, 'mask': mask, 'pres': pres, 'sizes': sizes_name, 'order': order, 'vclass': vc, 'naming': naming,
                         'schedule': None if sc is None else [[list(a), list(b)] for a, b in sc], 'seed': seed}
-                acc.case({'c': cliques, 's': sizes_name, 'o': order, 'v': vc, 'm': case['schedule']},
+                acc.case({'c': cliques, 's': sizes_name, 'o': order, 'v': vc, 'm': case['schedule'], 'n': naming},
                          nontrivial=len(model.cliques) >= 2)
                 acc.traces += 1
                 acc.transitions += len(msgs)
@@ -268,6 +269,8 @@ def run_job(job):
                 if sizes_name == 'one' and pres not in ('edges', 'maximal', 'nested'):
                     continue
                 cl = explore_structure(acc, k, mask, pres, sizes_name, job['vclasses'], job['seed'], orders_mode=job.get('orders', 'all'))
+                if sizes_name == 'main' and pres in ('edges', 'maximal') and k <= 4:
+                    explore_structure(acc, k, mask, pres, sizes_name, ['generic', 'neginf-cell'], job['seed'], orders_mode='some', naming='scrambled')
         acc.sample({'k': k, 'edges': S.graph_by_mask(k, mask), 'presentation': 'nested', 'cliques': S.present(S.ATTRS[:k], S.graph_by_mask(k, mask), 'nested'),
                     'orders': 'None, 2, all permutations', 'value_classes': job['vclasses']})
     return acc
@@ -275,7 +278,7 @@ def run_job(job):
 
 def replay(case):
     acc = Acc()
-    explore_structure(acc, case['k'], case['mask'], case['pres'], case['sizes'], [case['vclass']], case['seed'], only=case)
+    explore_structure(acc, case['k'], case['mask'], case['pres'], case['sizes'], [case['vclass']], case['seed'], only=case, naming=case.get('naming', 'letters'))
     for v in acc.violations:
         print(v['msg'])
     return acc.violations
